@@ -584,7 +584,10 @@ def type_listing(F, S):
     ext = P(fn, 0)
     has_ext = any(f[0] == "true" and f[1] == ("call", XF + "ExtensionMatches", None, (item, ext)) for f in site)
     dup = [f for f in site if f[0] == "false" and f[1][0] == "call" and f[1][1] == RM + "::IsDuplicateFilename"]
-    dup_ok = len(dup) == 1 and dup[0][1][3] == (cont, item)
+    # (a fact about a local that only names a value is also stated about that value: one test, two spellings)
+    tl = st.owner.through_locals
+    dup_forms = {tl(f[1]) for f in dup}
+    dup_ok = len(dup_forms) == 1 and any(f[1][3] == (cont, item) or tl(f[1])[3] == (tl(cont), tl(item)) for f in dup)
     inst = RM + "::GetAllFilenamesOfType#dedup"
     req = "an archive member is appended only if its extension matches and it is not a duplicate of a name already in the list being built"
     if has_ext and dup_ok:
